@@ -74,6 +74,8 @@ func IndexStartOptimize(pipe []*gripql.GraphStatement) []*gripql.GraphStatement 
 		}
 		if len(ids) > 0 {
 			idOpt = true
+			// a filter keeps an element once however often its id is listed
+			ids = dedupStringSlice(ids)
 			hIdx := &gripql.GraphStatement_V{V: protoutil.NewListFromStrings(ids)}
 			optimized = append(optimized, &gripql.GraphStatement{Statement: hIdx})
 		}
@@ -91,6 +93,7 @@ func IndexStartOptimize(pipe []*gripql.GraphStatement) []*gripql.GraphStatement 
 		}
 		if len(labels) > 0 {
 			labelOpt = true
+			labels = dedupStringSlice(labels)
 			hIdx := &gripql.GraphStatement_LookupVertsIndex{Labels: labels}
 			optimized = append(optimized, &gripql.GraphStatement{Statement: hIdx})
 		}
